@@ -68,4 +68,27 @@ def pickleVia (w : W) : Option (Except PyErr W) := do
   some (ctorArr w.kind ⟨w.dtype, if w.kind = .digital then 2 else 1, rows, w.ncols, true⟩ dtypeReq true
           start count ncols cap props timing scale)
 
+/-- one conjunct of `__eq__`: the comparison of one member of both objects (`none`: not a member of the model).  Spectrum's two
+    frequency members are not part of `W`: their conjuncts are outside the model and read as true. -/
+def memberEq (a b : W) : String → Option Bool
+  | "dtype" => some (a.dtype == b.dtype)
+  | "view" => some (a.view == b.view)
+  | "buffer" => some (a.buf == b.buf)
+  | "props" => some (a.props == b.props)
+  | "timing" => some (a.timing == b.timing)
+  | "scale" => some (a.scale == b.scale)
+  | "count" => some (a.count == b.count)
+  | "ncols" => some (a.ncols == b.ncols)
+  | "start" => some (a.start == b.start)
+  | "capacity" => some (a.capacity == b.capacity)
+  | "start_frequency" => some true
+  | "frequency_increment" => some true
+  | _ => none
+
+/-- `a == b` for two objects of one class, as the generated member list says -/
+def eqVia (a b : W) : Option Bool := do
+  let ms ← Gen.WfmReduce.eq_members.lookup (clsOf a.kind)
+  let bs ← ms.mapM (memberEq a b)
+  some (bs.all id)
+
 end Model.WfmReduce
